@@ -15,7 +15,8 @@ EXPLANATION = (
     "SIB: Sequence.estimate_added_delay and Sequence._add obtain the next slot from the same function (_Schedule.make_next_pulse_slot, directly resp. through add_pulse, which forwards its parameters unchanged) "
     "with pairwise identical argument provenance (validated pulse incl. phase reference, channel, phase barriers, protocol); the estimate returns slot.ti - last.tf and add_pulse inserts exactly that -- "
     "'predicted delay equals inserted delay' holds by construction. GUARD/TABLE: protocol literals used by the scheduler are members of PROTOCOLS; _find_add_delay is skipped iff protocol == 'no-delay'; "
-    "the conflict test is `targets overlap or protocol == 'wait-for-all'`; the channel itself is skipped; _validate_add_protocol dominates both entry points. FLOW: every use of another channel's op.tf "
+    "the conflict test is `targets overlap or protocol == 'wait-for-all'`; the channel itself is skipped; every `break` of the backwards scan over another channel's slots is under `slot end + ramp-down <= start time` or the conflict test "
+    "(a pulse still ramping down that does not conflict never ends the scan); _validate_add_protocol dominates both entry points. FLOW: every use of another channel's op.tf "
     "is op.tf + fall_time(...) for pulses and op.tf + 2*rise_time for non-pulses; the start time is max(t0, *phase barriers). ALIGN: the alignment target is the max over channels of the end "
     "(with fall time iff at_rest) and each channel is delayed by target - its *plain* end. NOT decided: minimality ('earliest instant') and numerical fall times."
 )
@@ -104,9 +105,26 @@ def run(E: Engine, rep: Report, tier: str) -> dict:
         ok_skip = ok_skip and any(is_(x, "Q_ch != channel") is not None for x in sym.conj_of(l.cond))
     rep.check(ok_conf, "GUARD", "_find_add_delay|conflict=overlap-or-wait-for-all", "conflict iff the examined slot's targets overlap the new pulse's targets, or protocol == 'wait-for-all'", "the conflict test is no longer `<examined slot>.targets & self[channel][-1].targets or protocol == 'wait-for-all'` (it must compare the targets the other pulse had, not the other channel's current targets)", E.where(fad))
     rep.check(ok_skip, "GUARD", "_find_add_delay|skips-own-channel", "the channel itself is skipped", "the scan no longer skips the channel the pulse is added to", E.where(fad))
+    # the backwards scan of another channel may stop only where nothing earlier can matter: at a non-pulse slot that
+    # ended 2*rise_time ago, at a pulse whose ramp-down is over, or at the conflicting pulse that set the start time;
+    # a pulse that is still ramping down but does not conflict must not end the scan (an earlier one may conflict)
+    brk = [l for l in Sfad.logged("break") if l.fn == fad.short and len(l.loops) >= 2]
+    ok_brk = bool(brk)
+    bad_brk = None
+    for l in brk:
+        safe = False
+        for x in sym.conj_of(l.cond):
+            if is_(x, "(Q_op.targets & Q_s[channel][-1].targets) or protocol == 'wait-for-all'") is not None:
+                safe = True
+            if x[0] == "cmp" and x[1] in ("Lt", "LtE") and any(t[0] == "attr" and t[2] == "tf" and t[1][0] == "elem" for t in sym.subterms(x[2])) and (mentions(x[2], "fall_time") or mentions(x[2], "rise_time")):
+                safe = True
+        if not safe:
+            ok_brk, bad_brk = False, l
+    rep.check(ok_brk, "GUARD", "_find_add_delay|scan-stops-only-when-safe", "every `break` of the backwards scan is under: slot end + ramp-down <= start time, or the conflict test",
+              f"the scan of the other channel's slots stops under `{sh(bad_brk.cond, 200) if bad_brk else 'no break found'}`: a pulse that does not conflict but is still ramping down ends the scan, so an earlier conflicting pulse on that channel is never seen", E.where(fad, bad_brk.node) if bad_brk else E.where(fad))
     for f in (add, est):
         rep.check(must_pass(E, f, vap), "GUARD", f"{f.short}|validates-protocol", "_validate_add_protocol on every path", f"{f.short} can proceed without validating the protocol", E.where(f))
-    rep.floor("GUARD", 6)
+    rep.floor("GUARD", 7)
 
     # --------------------------------------------------------------- FLOW
     # every use of another channel's slot end is extended by that slot's ramp-down
